@@ -29,6 +29,7 @@ def main(argv):
     exe, tables = enumcheck.reflect_harness("h_codec", "plain-asan")
     common = ["mode=frame", "pad=" + ",".join(map(str, pad)), "nopad=" + ",".join(map(str, nopad))]
     common.append("big=1")
+    common.append("overlong=1")
     n = 16
     jobs = [(exe, common + ["shard=%d/%d" % (i, n)]) for i in range(n)]
     res = enumcheck.run_jobs(jobs, timeout=900)
